@@ -37,7 +37,7 @@ pub fn harness_main(gen: GenFn, run: RunFn) {
             let mut cases = Vec::new();
             gen(&mut Rng::new(seed), tier, &mut cases);
             for c in cases {
-                writeln!(out, "{c}").unwrap();
+                if writeln!(out, "{c}").is_err() { std::process::exit(0); }
             }
         }
         "run" => {
@@ -66,7 +66,7 @@ pub fn harness_main(gen: GenFn, run: RunFn) {
                         format!("panic:{msg}")
                     }
                 };
-                writeln!(out, "{line} => {res}").unwrap();
+                if writeln!(out, "{line} => {res}").is_err() { std::process::exit(0); }
             }
         }
         other => {
